@@ -463,6 +463,13 @@ class AirTouchSocket(Generic[comms.Hdr]):
             return
 
         while self.is_connected and self._message_queue:
+            if self._writer is None or self._writer.is_closing():
+                # The connection is already going down (another task is resetting
+                # it or the transport has failed). Keep the queued messages for
+                # the next connection rather than spending their retries on a
+                # stream that is known to be lost.
+                return
+
             entry = self._message_queue.popleft()
 
             if self._loop.time() >= entry.expiry:
